@@ -176,6 +176,13 @@ class SpyBudget(Budget):
         return r
 
 
+class FalsySpyBudget(SpyBudget):
+    """A budget object that defines __len__ (tokens in use): falsy while empty, still the configured budget."""
+
+    def __len__(self):
+        return 0
+
+
 class SpyBreaker(CircuitBreaker):
     """Real CircuitBreaker; records the public protocol at the boundary."""
 
@@ -206,6 +213,13 @@ class SpyBreaker(CircuitBreaker):
         w = env.current()
         self._rv_sink().append(("br.cancel", w.now() if w else None))
         return r
+
+
+class FalsySpyBreaker(SpyBreaker):
+    """A breaker whose truth value means "healthy": falsy whenever it is not closed, still the configured breaker."""
+
+    def __bool__(self):
+        return CircuitBreaker.state.fget(self).value == "closed"
 
 
 class Rec:
@@ -331,6 +345,16 @@ class Harness:
                 return c
             rec.cls_objs["last"] = None
             return EC[r.rv_klass]
+        if r is None and rec.counts.get("none_result") is not None:
+            k, ra, idx = rec.counts.pop("none_result")
+            rec.trace.append(("rclassify", idx, True))
+            self.cb_fault("rclassifier")
+            if self.cfg.get("use_classification"):
+                c = Classification(klass=EC[k], retry_after_s=ra)
+                rec.cls_objs["last"] = c
+                return c
+            rec.cls_objs["last"] = None
+            return EC[k]
         rec.trace.append(("rclassify", getattr(r, "idx", None), False))
         self.cb_fault("rclassifier")
         return None
@@ -378,9 +402,17 @@ class Harness:
         if name in self.cfg.get("strategy_objects", ()):
             # a strategy OBJECT with the optional feedback protocol (record_failure / record_success), like adaptive()
 
+            falsy = name in self.cfg.get("strategy_objects_falsy", ())
+
             class StrategyObject:
                 def __call__(self, ctx):
                     return ctxs(ctx)
+
+                def __len__(self):
+                    # e.g. a schedule object with no explicit steps: falsy, yet a perfectly valid registered strategy
+                    if falsy:
+                        return 0
+                    return 1
 
                 def record_failure(self, klass=None):
                     rec = h.cur
@@ -417,19 +449,29 @@ class Harness:
         if kind == "exc_same":
             # a client that caches its error object: the SAME instance is raised again on consecutive attempts
             x = rec.objs.get("cached_exc")
-            if x is None or x.rv_klass != o[1]:
+            if x is None:
                 x = ScriptExc(o[1], i, o[2] if len(o) > 2 else None)
                 rec.objs["cached_exc"] = x
+            # the client mutates its one error object and raises it again: the classifier's answer may differ
+            x.rv_klass = o[1]
+            x.retry_after = o[2] if len(o) > 2 else None
+            x.idx = i
             rec.objs[i] = x
             raise x
         if kind == "res":
             r = ScriptRes(o[1], i, o[2] if len(o) > 2 else None)
             rec.objs[i] = r
             return r
+        if kind == "res_none":
+            # "poll until the value is there": None itself is the rejected result
+            rec.objs[i] = None
+            rec.counts["none_result"] = (o[1], o[2] if len(o) > 2 else None, i)
+            return None
         if kind == "sp":
             name = o[1]
             if name == "abort":
-                x = AbortRetryError()
+                # the documented public alias on odd attempts, the class itself on even ones
+                x = (redress.AbortRetry if i % 2 else AbortRetryError)()
             elif name == "nested_exh":
                 x = RetryExhaustedError(
                     stop_reason=StopReason.MAX_ATTEMPTS_GLOBAL,
@@ -445,6 +487,10 @@ class Harness:
                 # an ordinary failure whose type is TimeoutError (what asyncio.wait_for / socket timeouts raise)
                 x = asyncio.TimeoutError("scripted timeout")
                 x.rv_klass = o[2] if len(o) > 2 and o[2] else "TRANSIENT"
+                if i % 2:
+                    # what an inner asyncio.wait_for / asyncio.timeout raises: TimeoutError chained from CancelledError
+                    x.__cause__ = asyncio.CancelledError()
+                    x.rv_cause = x.__cause__
             else:
                 x = make_exc(name)
             try:
@@ -478,6 +524,13 @@ class Harness:
             ans = True  # sticky flag raised while the strategy was computing the ast-th delay
         rec.trace.append(("poll", i, ans, self.now()))
         self.cb_fault("abort_if")
+        enc = self.sc.get("poll_kind", "bool")
+        if enc == "int":
+            return (i + 3) if ans else 0
+        if enc == "str":
+            return "stop" if ans else ""
+        if enc == "obj":
+            return [i] if ans else []
         return ans
 
     def mk_handler(self, place):
@@ -613,7 +666,7 @@ class Harness:
         self._pre = []
         b = cfg.get("budget")
         if b:
-            self.budget = SpyBudget(self._sink, max_retries=b["max"], window_s=b["window"])
+            self.budget = (FalsySpyBudget if b.get("falsy") else SpyBudget)(self._sink, max_retries=b["max"], window_s=b["window"])
         br = cfg.get("breaker")
         if br and self.kind == "policy":
             kw = dict(
@@ -625,7 +678,7 @@ class Harness:
                 kw["trip_on"] = {EC[k] for k in br["trip_on"]}
             if br.get("class_thresholds"):
                 kw["class_thresholds"] = {EC[k]: v for k, v in br["class_thresholds"].items()}
-            self.breaker = SpyBreaker(self._sink, **kw)
+            self.breaker = (FalsySpyBreaker if br.get("falsy") else SpyBreaker)(self._sink, **kw)
         place = self.place
         pol_kw = {}
         self.call_kw = {}
